@@ -274,12 +274,30 @@ func (s *Storage) LoadRules(f func(k, v string)) error {
 
 // SaveRuleGroup stores a rule group config to storage.
 func (s *Storage) SaveRuleGroup(groupID string, group interface{}) error {
+	if _, err := ruleGroupKey(groupID); err != nil {
+		return err
+	}
 	return s.SaveJSON(ruleGroupPath, groupID, group)
 }
 
 // DeleteRuleGroup removes a rule group from storage.
 func (s *Storage) DeleteRuleGroup(groupID string) error {
-	return s.Remove(path.Join(ruleGroupPath, groupID))
+	key, err := ruleGroupKey(groupID)
+	if err != nil {
+		return err
+	}
+	return s.Remove(key)
+}
+
+// ruleGroupKey returns the key of a rule group: the group id appended to the prefix. Unlike rule keys the
+// group id is not encoded, so an id that path cleaning would change ("a/", "b/../a", "../alloc_id") is
+// refused: it would share the key of another group or address a key outside the prefix.
+func ruleGroupKey(groupID string) (string, error) {
+	key := ruleGroupPath + "/" + groupID
+	if path.Join(ruleGroupPath, groupID) != key {
+		return "", errors.Errorf("invalid rule group id %q", groupID)
+	}
+	return key, nil
 }
 
 // LoadRuleGroups loads all rule groups from storage.
